@@ -1,6 +1,7 @@
 import RLV.Lemmas.Kill
 import RLV.Lemmas.KillCmds
 import RLV.Lemmas.KillMore
+import RLV.Gen.Effects
 /-! C16 — Yank gives back exactly what kill took (property theorems; helper lemmas live in RLV/Lemmas). -/
 namespace RLV.Props.C16
 open RLV.Core RLV.Kill
@@ -84,5 +85,17 @@ example : (match killRegion { line := [97, 98, 32, 99, 100, 32, 101, 102], cur :
     | .ok s1 => s1.kill == [99, 100] && s1.line == [97, 98, 32, 32, 101, 102] && s1.cur.pos == 3 &&
         (match yank s1 with | .ok s2 => s2.line == [97, 98, 32, 99, 100, 32, 101, 102] | _ => false)
     | _ => false) = true := by decide
+
+/-- Tie to the source (regenerated by `rlv-dump` on every run): the commands that can write the kill
+ring (`Buffers.Write` reachable from their closure) are exactly these — the kill commands, the copy
+commands and the Vi deletes/yanks. The session oracle drives every kill command of this list by name;
+a command that starts (or stops) writing the ring breaks this theorem. -/
+theorem the_kill_ring_is_written_by_these_commands_only :
+    (Gen.Effects.reached.filter fun e => e.2.contains "Buffers.Write").map (·.1) =
+      ["backward-kill-line", "backward-kill-word", "copy-backward-word", "copy-forward-word", "copy-region-as-kill",
+       "kill-buffer", "kill-line", "kill-region", "kill-whole-line", "kill-word", "shell-backward-kill-word",
+       "shell-kill-word", "unix-line-discard", "unix-word-rubout", "vi-change-to", "vi-delete", "vi-delete-to",
+       "vi-kill-eol", "vi-kill-line", "vi-rubout", "vi-subst", "vi-unix-word-rubout", "vi-yank-to",
+       "vi-yank-whole-line"] := by decide
 
 end RLV.Props.C16
